@@ -26,7 +26,7 @@ LEVEL = "model_checking"
 MANIFEST = dict(
     category="model_checking",
     text="TLC checks, on explicit TLA+ models, that a member view is by construction slice i of the joint pass with shape batch x outputs, that the aggregate equals the moments of the uniform mixture (law of total variance), the bootstrap discipline (own bootstrap only, each position at most once per epoch, rectangular batches, only the remainder dropped), member isolation of one optimiser step, order/scale laws of the Gaussian NLL, locality laws of plan evaluation and of TS-inf propagation, and the Pendulum reward laws; every TLC-generated vector (exact dyadic expectations, linear forms in LN2 / PI^2 / named variances) is replayed into the real GaussianMLPEnsemble (__call__, base_predict, base_distribution, aggregate), gaussian_nll, evaluate_plans, ts_inf, pendulum_reward, and real train_ensemble / train_epoch runs are validated against the bootstrap specification (trace validation) - the right level because the defects of interest are shape/index/broadcast errors that small exhaustive lattices over ensemble size x outputs x input kind expose exactly.",
-    note="bounds: ensemble size 2-3, outputs 1-3, batch rows 1-3, one ReLU hidden layer of 2 nodes with dyadic parameters, data sets <= 8 rows / bootstrap <= 6 positions for trace validation; log-variances only through order/bound predicates and the saturated points (softplus is uninterpreted), ts_inf noise only through 8-sigma envelopes and a sample-variance band; Pendulum-vs-Gymnasium comparison is differential evidence outside the specification; trusted: TLC, spec/Exact.tla, the projection code in this driver, numeric values of LN2 and PI^2",
+    note="bounds: ensemble size 2-3, outputs 1-3, batch rows 1-3, one ReLU hidden layer of 2 nodes with dyadic parameters, data sets <= 32 rows / bootstrap samples <= 16 positions for trace validation; log-variances only through order/bound predicates and the saturated points (softplus is uninterpreted), ts_inf noise only through 8-sigma envelopes and a sample-variance band; Pendulum-vs-Gymnasium comparison is differential evidence outside the specification; trusted: TLC, spec/Exact.tla, the projection code in this driver, numeric values of LN2 and PI^2",
     technique="TLA+ specs + TLC (invariants, named deviation canaries); replay of TLC-generated vectors into GaussianMLPEnsemble.__call__/base_predict/base_distribution/aggregate, gaussian_nll, evaluate_plans, ts_inf, pendulum_reward; trace validation (EnsembleBootTrace) of train_ensemble with bootstrap/train_epoch interposed; version (digest) comparison of real train_epoch runs",
 )
 
@@ -610,6 +610,7 @@ def part_boot(rep, pool):
         dict(E=3, N=8, TsNum=3, TsDen=4, B=4, epochs=2),  # NB=6, 1 batch, remainder 2
         dict(E=2, N=6, TsNum=1, TsDen=2, B=2, epochs=2),  # NB=3, remainder 1
         dict(E=2, N=4, TsNum=1, TsDen=2, B=3, epochs=1),  # NB < B: no batch at all
+        dict(E=5, N=8, TsNum=7, TsDen=10, B=2, epochs=2),  # the PETS defaults: 5 members, train_size 0.7 (0.7 * 8 = 5.6 -> 5)
     ]
     if not quick:
         cfgs += [
@@ -618,6 +619,8 @@ def part_boot(rep, pool):
             dict(E=2, N=5, TsNum=1, TsDen=1, B=5, epochs=2),
             dict(E=2, N=8, TsNum=1, TsDen=2, B=3, epochs=4),
             dict(E=4, N=4, TsNum=1, TsDen=1, B=2, epochs=2),
+            dict(E=5, N=16, TsNum=7, TsDen=10, B=4, epochs=3),  # 0.7 * 16 = 11.2 -> 11, remainder 3
+            dict(E=3, N=32, TsNum=1, TsDen=2, B=8, epochs=2),
         ]
     nseeds = 3 if quick else 8
     jobs = []
@@ -1219,7 +1222,7 @@ def run(rep):
         "member means are exact only for the dyadic one-hidden-layer ReLU networks of the lattice; member-vs-joint equality is bitwise on that lattice",
         "ts_inf noise is checked through an 8-sigma envelope around the mean trajectory and a +-20% band on the sample standard deviation of 1024 particles",
         "the comparison with Gymnasium's Pendulum reward is differential evidence on random states (angles within 0.05 rad of +-pi excluded as ill-conditioned in float32)",
-        "trace validation covers bootstrap samples of <= 6 positions",
+        "trace validation covers data sets of <= 32 rows, bootstrap samples of <= 16 positions, train sizes 1/2, 3/4, 1 and 0.7 (where 0.7 * n is not within rounding of an integer)",
         "trusted: TLC, spec/Exact.tla, numeric LN2 and PI^2, this driver's parameter loading",
     ]
 
